@@ -188,6 +188,9 @@ def snap_pattern(pat, out, pre):
     for f in PATTERN_FIELDS:
         out[pre + (f,)] = canon(getattr(pat, f))
     out[pre + ("cells",)] = cells(pat)
+    # every note of the grid answers for this pattern (a back reference: observable through note.pattern /
+    # note.project / note.mod; True in every state the library is supposed to reach)
+    out[pre + ("notes_owned",)] = all(n.pattern is pat for line in pat.data for n in line)
 
 
 _ACTIVE = []  # projects currently being walked (object graphs must be trees; a cycle is reported, not followed)
@@ -215,9 +218,14 @@ def _snap_project(p, out, pre=(), depth=0):
             out[pre + ("mod", i)] = None
         else:
             snap_module(m, out, pre + ("mod", i), True, depth)
+            # back references (observable through int(m), note.mod = m, m.parent): True in every state the
+            # library is supposed to reach
+            out[pre + ("mod", i, "index_and_parent_coherent")] = m.index == i and m.parent is p
     out[pre + ("npatterns",)] = len(p.patterns)
     for i, pat in enumerate(p.patterns):
         snap_pattern(pat, out, pre + ("pat", i))
+        if pat is not None:
+            out[pre + ("pat", i, "project_is_owner")] = pat.project is p
 
 
 def snap_synth(s, out, pre=(), depth=0):
